@@ -1,10 +1,26 @@
 import Ldap3V.Driver.Util
+import Ldap3V.Model.Entry
 namespace Ldap3V.Driver
 open Ldap3V
+
+/-- `{k:[v,v];k:[]}` with keys in byte-lexicographic order (the order of Rust's `String: Ord`) -/
+def showMap (m : AMap (List Bytes)) : String :=
+  let sorted := (m.toArray.qsort (fun a b => decide (a.1 < b.1))).toList
+  "{" ++ ";".intercalate (sorted.map fun (k, vs) => hexOf k ++ ":[" ++ ",".intercalate (vs.map hexOf) ++ "]") ++ "}"
+
+def showEntryOutcome : Outcome SearchEntry → String
+  | .panic => "panic"
+  | .ok se => s!"ok dn={hexOf se.dn} text={showMap se.text} bin={showMap se.bin}"
 
 /-- line-protocol handler for the `Entry` family of commands; `none` = not mine -/
 def handleEntry (cmd arg : String) : Option String :=
   match cmd with
+  | "entry.construct" => some (match parseTlv arg with
+      | some t => showEntryOutcome (construct t)
+      | none => "bad-request")
+  | "utf8.valid" => some (match unhex arg with
+      | some bs => toString (utf8Valid bs)
+      | none => "bad-request")
   | _ => none
 
 end Ldap3V.Driver
